@@ -767,7 +767,9 @@ void caseScaled(vrt::Case& c)
   {
     sp.haveExact = true;
     sp.exactDet = ldexpl(static_cast<LD>(d), k * static_cast<int>(n)); // exact: |d| < 2^63
-    if (d == 0) sp.designed = -1;
+    // the rounding noise that replaces the zero pivot of a singular matrix scales with the matrix (<= 5e-11 . 2^k here), and the
+    // threshold is absolute: only for k <= 8 is the refusal certain (noise < SMALL/4); above, the returned pivots decide
+    if (d == 0 && k <= 8) sp.designed = -1;
   }
   vrt::describe(sp.gen + ":n=" + str(n), "2^" + str(k) + " times " + dump(A0));
   vrt::cover(string("scaled:n") + str(n) + ":k" + (k < -19 ? "<-19" : k < 0 ? "<0" : k == 0 ? "=0" : ">0"));
